@@ -138,6 +138,12 @@ def main():
     a = ap.parse_args()
     os.environ['MATCHINGPROBLEMS_VERIF'] = '1'
     workdir = tempfile.mkdtemp(prefix='rv_%s_' % a.prop)
+    # every temporary file of this worker (PuLP's .mps/.sol files included, which PuLP leaves behind when CBC
+    # fails) lives in its own directory, removed at the end
+    scratch = os.path.join(workdir, 'tmp')
+    os.makedirs(scratch, exist_ok=True)
+    os.environ['TMPDIR'] = scratch
+    tempfile.tempdir = scratch
     res = {'crash': None}
     try:
         from rv import loader
